@@ -203,9 +203,9 @@ UNIT_DOC = {
 }
 
 PARTS = [{"mode": m, "use_default": u, "exceptions_idx": e} for m in range(3) for u in range(2) for e in range(5)]
-register(Job("C12", "unit_retry", make_unit(), tier="quick", budget_s=400, parts=PARTS,
+register(Job("C12", "unit_retry", make_unit(base_exc=True), tier="quick", budget_s=400, parts=PARTS,
              goals=("exp_val", "exp_default", "exp_raise", "retried", "calls:3"), doc=UNIT_DOC))
-register(Job("C12", "unit_retry_baseexc", make_unit(base_exc=True), tier="thorough", budget_s=900,
+register(Job("C12", "unit_retry_6slots", make_unit(base_exc=True, slots=6), tier="thorough", budget_s=1500,
              parts=[{"mode": m, "use_default": u, "exceptions_idx": e} for m in range(3) for u in range(2) for e in range(5)],
              goals=("exp_val", "exp_default", "exp_raise", "retried"), doc=UNIT_DOC))
 
